@@ -196,7 +196,7 @@ def main(chk):
         if not found and len(chk.samples) < 3:
             chk.sample(dict(schema=lib.schema.name, variant=variant, ids=[i.id for i in pop.insts][:12], order=order[:12],
                             verdict='index, fwd/rev tables, dependency closure and every loaded instance equal the eager reader'))
-    probes.run_probes(chk, 'C10', judge_probe) if probes.PROBES.get('C10') else None
+    run_lazy_probes(chk, 'C10')
     return chk.finish(
         rule='seeded conforming populations (reference cycles, complex instances, comments and strings containing # ( ; ) in text variants; each loaded in forward, reverse '
              'and shuffled double orders; distinct_nontrivial = distinct (simple/complex, number of distinct references capped at 3, plain/comment variant)',
@@ -204,5 +204,17 @@ def main(chk):
                      'dependency set compared without the instance itself (reflexive-free)'])
 
 
-def judge_probe(chk, probe, lib):
-    return []
+def run_lazy_probes(chk, prop):
+    ps = [p.prepare() for p in probes.PROBES.get(prop, [])]
+    if not ps:
+        return
+    libs = p21fam.build_libs([p.schema for p in ps], harnesses=HARN, lazy=True)
+    for p, lib in zip(ps, libs):
+        chk.count('probes_run')
+        if lib.fail is not None:
+            chk.violation('probe|%s|schema library could not be built' % p.name, str(lib.fail)[:600], {'schema.exp': p.schema.text()})
+            continue
+        pop = p.population()
+        ids = [i.id for i in pop.insts]
+        for key, what, files in judge(chk, lib, pop, p.p21, ids + ids, p.variant):
+            chk.violation(key + '|probe:' + p.name, what, files, dict(probe=p.name))
